@@ -64,6 +64,11 @@ def run_sim_history(p, ctx, mode):
     mode = "cut+full"    : simulate(max_time=$k) first, then the observed (default, fully initialising) call
     mode = "resume"      : simulate(max_time=$k) first, then the observed call continues it (both initialisation flags off)
     mode = "json-resume" : simulate(max_time=$k), write_simple_json, read_simple_json into a new project, observed call continues it there
+    mode = "edited-resume": simulate(max_time=$k) with every personal absence list empty, then the model's own lists are put in place and
+                            the observed call continues the run (both initialisation flags off)
+    mode = "edited-model" : a complete first run on an edited model (last team not yet in the organization, skill maps rotated among the
+                            workers / facilities, personal absence lists [$k]); then the model's own values are put in place and the observed
+                            (default, fully initialising) call follows on the same objects
     The oracles then judge the observed call only (its steps carry the project's own clock)."""
     from props.histcore import clear_mutable_defaults
 
@@ -85,6 +90,30 @@ def run_sim_history(p, ctx, mode):
             ok1, r1 = ctx.call(M.project.simulate, **kw)
             for w, sv in zip(M.workers, saved):
                 w.absence_time_list = sv
+        elif mode == "edited-resume":
+            res = M.workers + M.facs
+            saved = [r.absence_time_list for r in res]
+            for r in res:
+                r.absence_time_list = []
+            ok1, r1 = ctx.call(M.project.simulate, **dict(kw, max_time=p["k"]))
+            for r, sv in zip(res, saved):
+                r.absence_time_list = sv
+        elif mode == "edited-model":
+            res = M.workers + M.facs
+            saved_abs = [r.absence_time_list for r in res]
+            saved_sk = [r.workamount_skill_mean_map for r in res]
+            for r in res:
+                r.absence_time_list = [p["k"]]
+            for grp in (M.workers, M.facs):
+                for i, r in enumerate(grp):
+                    r.workamount_skill_mean_map = dict(grp[(i + 1) % len(grp)].workamount_skill_mean_map)
+            late_team = M.org.team_list.pop() if len(M.org.team_list) >= 2 else None
+            ok1, r1 = ctx.call(M.project.simulate, **kw)
+            if late_team is not None:
+                M.org.team_list.append(late_team)
+            for r, sa, sk in zip(res, saved_abs, saved_sk):
+                r.absence_time_list = sa
+                r.workamount_skill_mean_map = sk
         else:
             ok1, r1 = ctx.call(M.project.simulate, **dict(kw, max_time=p["k"]))
         if not ok1:
@@ -112,7 +141,7 @@ def run_sim_history(p, ctx, mode):
         kw2 = dict(kw)
         if mode == "cut+state":
             kw2.update(initialize_state_info=True, initialize_log_info=False)
-        elif mode in ("resume", "json-resume"):
+        elif mode in ("resume", "json-resume", "edited-resume"):
             kw2.update(initialize_state_info=False, initialize_log_info=False)
         obs = Observer(M)
         with obs.installed():
